@@ -72,6 +72,7 @@ struct Th {
     panicked: bool,
     /// the thread's last step exhausted a spin loop (a fair scheduler would now run somebody else)
     yielded: bool,
+    spins: u32,
 }
 
 struct Shared {
@@ -85,6 +86,19 @@ struct Shared {
     rw: bool,
     step: i64, // index of the schedule step being executed (-1: none)
     snapshots: bool,
+    // ---- the run in progress (the scheduling logic is executed by whichever thread holds the baton)
+    chooser: Option<Chooser>,
+    budgets: Budgets,
+    max_steps: usize,
+    follow_len: usize,
+    sched: Vec<Choice>,
+    last: Option<usize>,
+    stepno: usize,
+    diverged: Option<(usize, String)>,
+    cut: bool,
+    started: usize,
+    nthreads: usize,
+    run_over: bool,
 }
 
 struct Ctl {
@@ -229,11 +243,32 @@ fn site_str(op: &Op) -> String {
 // ------------------------------------------------------------------------------------------
 // worker side: yield points
 // ------------------------------------------------------------------------------------------
+fn same_site(op: &Op) -> usize {
+    op.site.line() as usize * 4096 + op.site.column() as usize
+}
+
 fn yield_point(me: usize, p: Pending) -> Grant {
     let c = ctl();
     let mut s = lock_shared();
+    // spin-loop collapse: a thread that repeats the load it has just done (same location, call
+    // site and value, nothing in between) goes on without a scheduling decision
+    if let Pending::Atomic(op) = &p {
+        if op.kind == OpKind::Load && s.th[me].spins < SPIN_CAP {
+            if let Some((a, v, sid)) = s.th[me].last_load {
+                // SAFETY: address of a live shim atomic
+                if op.addr == a && same_site(op) == sid && unsafe { (*(a as *const CoreAtomicU32)).load(Ordering::SeqCst) } == v {
+                    s.th[me].spins += 1;
+                    s.th[me].yielded = true;
+                    return Grant::default();
+                }
+            }
+        }
+    }
+    s.th[me].spins = 0;
     s.th[me].state = TState::Announced(p);
-    c.signal(0);
+    if let Some(g) = drive(&mut s, me) {
+        return g;
+    }
     loop {
         if s.abort {
             drop(s);
@@ -241,7 +276,6 @@ fn yield_point(me: usize, p: Pending) -> Grant {
             std::panic::resume_unwind(Box::new(Abort));
         }
         if let Some(g) = s.th[me].grant.take() {
-            s.th[me].state = TState::Running;
             return g;
         }
         s = c.wait(me, s);
@@ -286,7 +320,7 @@ fn hook_after(op: &Op, old: u32, ok: bool) {
         OpKind::Load => {
             // spin-loop collapse: a repeated load (same thread, location, call site, value, nothing
             // in between) is merged into the previous event by bumping its count
-            let sid = op.site.line() as usize * 4096 + op.site.column() as usize;
+            let sid = same_site(op);
             let rep = s.th[me].last_load == Some((op.addr, old, sid));
             s.th[me].last_load = Some((op.addr, old, sid));
             if rep {
@@ -372,7 +406,7 @@ fn hook_wait(word: &CoreAtomicU32, expect: u32) -> Option<i32> {
     let tail = format!("{}{}", s.step_tag(), s.snapshot());
     s.log
         .push(format!("{{\"ev\":\"wait\",\"t\":{me},\"loc\":\"{loc}\",\"exp\":{e},\"res\":\"parked\"{tail}}}"));
-    c.signal(0);
+    let _ = drive(&mut s, me);
     loop {
         if s.abort {
             drop(s);
@@ -603,7 +637,7 @@ fn worker(me: usize, lock: Arc<LockObj>, prog: Vec<String>) {
         }
     }
     s.th[me].state = TState::Finished;
-    c.signal(0);
+    let _ = drive(&mut s, me);
     drop(s);
     drop(lock);
     TID.with(|t| t.set(0));
@@ -678,18 +712,6 @@ struct RunResult {
     log: Vec<String>,
 }
 
-fn wait_quiescent(s: StdGuard<'static, Shared>) -> StdGuard<'static, Shared> {
-    let c = ctl();
-    let mut s = s;
-    loop {
-        let busy = (1..s.th.len()).any(|t| matches!(s.th[t].state, TState::Running));
-        if !busy {
-            return s;
-        }
-        s = c.wait(0, s);
-    }
-}
-
 fn wait_started(s: StdGuard<'static, Shared>, t: usize) -> StdGuard<'static, Shared> {
     let c = ctl();
     let mut s = s;
@@ -747,77 +769,128 @@ fn enabled(s: &Shared, b: &Budgets) -> Vec<Choice> {
     v
 }
 
-/// Perform one choice: returns with all threads quiescent again.
-fn perform(mut s: StdGuard<'static, Shared>, ch: &Choice) -> StdGuard<'static, Shared> {
-    let c = ctl();
-    match ch {
-        Choice::Grant(t) | Choice::GrantFail(t) | Choice::GrantWake(t, _) => {
-            let mut g = Grant { fail_weak: matches!(ch, Choice::GrantFail(_)), wake: vec![], auto: false };
-            if let Choice::GrantWake(_, w) = ch {
-                g.wake.clone_from(w);
-            } else if matches!(s.th[*t].state, TState::Announced(Pending::Wake { .. })) {
-                g.auto = true;
-            }
-            let mut spins = 0;
-            loop {
-                s.th[*t].grant = Some(g.clone());
-                s.th[*t].state = TState::Running;
-                c.signal(*t);
-                s = wait_quiescent(s);
-                // spin-loop collapse: keep granting while the thread repeats the same load
-                let again = if let (TState::Announced(Pending::Atomic(op)), Some((a, v, sid))) =
-                    (&s.th[*t].state, s.th[*t].last_load)
-                {
-                    op.kind == OpKind::Load
-                        && op.addr == a
-                        && op.site.line() as usize * 4096 + op.site.column() as usize == sid
-                        && unsafe { (*(a as *const CoreAtomicU32)).load(Ordering::SeqCst) } == v
-                } else {
-                    false
-                };
-                spins += 1;
-                if !again || spins > SPIN_CAP {
-                    break;
-                }
-            }
-            s.th[*t].yielded = spins > 1;
-        }
-        Choice::Spurious(t) | Choice::Eintr(t) => {
-            let eintr = matches!(ch, Choice::Eintr(_));
-            if let TState::Parked(addr) = s.th[*t].state {
-                let li = s.loc_index(addr);
-                s.queues[li].retain(|x| x != t);
-                if eintr {
-                    s.th[*t].eintr_used += 1;
-                } else {
-                    s.th[*t].spur_used += 1;
-                }
-                s.th[*t].state = TState::Woken;
-                let tail = format!("{}{}", s.step_tag(), s.snapshot());
-                s.log.push(format!(
-                    "{{\"ev\":\"woken\",\"t\":{t},\"cause\":\"{}\"{tail}}}",
-                    if eintr { "eintr" } else { "spurious" }
-                ));
-                s.to_release.push((*t, if eintr { -EINTR } else { 0 }));
-            }
+enum Chooser {
+    Follow(Follow),
+    Dfs(Dfs),
+    Random(Random),
+}
+impl Chooser {
+    fn pick(&mut self, step: usize, choices: &[Choice], last: Option<usize>, yielded: bool) -> Result<usize, String> {
+        match self {
+            Chooser::Follow(f) => f.pick(step, choices),
+            Chooser::Dfs(d) => d.pick(step, choices, last, yielded),
+            Chooser::Random(r) => r.pick(choices, last),
         }
     }
-    // release woken threads one at a time so that the log stays deterministic
-    while !s.to_release.is_empty() {
-        let (w, code) = s.to_release.remove(0);
-        s.th[w].wake_code = Some(code);
-        s.th[w].state = TState::Running;
-        c.signal(w);
-        s = wait_quiescent(s);
-    }
-    s
 }
 
-trait Chooser {
-    /// index into `choices`, or None to stop following (switch to the default policy)
-    fn pick(&mut self, step: usize, choices: &[Choice], last: Option<usize>, yielded: bool) -> Result<usize, String>;
-    fn following(&self, _step: usize) -> bool {
-        false
+/// The scheduling logic.  Called, with the shared state locked, by a thread that has just become
+/// quiescent (announced an operation, parked in the simulated futex, finished) or by the main
+/// thread to start the run.  If nobody else is running it makes scheduling decisions until some
+/// thread has been set running; when that thread is the caller itself its grant is returned and no
+/// hand-over takes place at all.
+fn drive(s: &mut Shared, me: usize) -> Option<Grant> {
+    let c = ctl();
+    loop {
+        if s.started < s.nthreads {
+            c.signal(0); // start-up: the main thread waits for each worker's first yield point
+            return None;
+        }
+        if s.run_over || s.abort {
+            return None;
+        }
+        if (1..s.th.len()).any(|t| matches!(s.th[t].state, TState::Running)) {
+            return None;
+        }
+        // woken threads are released one at a time so that the log stays deterministic
+        if !s.to_release.is_empty() {
+            let (w, code) = s.to_release.remove(0);
+            s.th[w].wake_code = Some(code);
+            s.th[w].state = TState::Running;
+            c.signal(w);
+            return None;
+        }
+        let choices = enabled(s, &s.budgets);
+        if !choices.iter().any(|c| !c.is_env()) {
+            s.run_over = true;
+            c.signal(0);
+            return None;
+        }
+        if s.stepno >= s.max_steps {
+            s.cut = true;
+            s.run_over = true;
+            c.signal(0);
+            return None;
+        }
+        let step = s.stepno;
+        let last = s.last;
+        let yielded = last.is_some_and(|l| s.th[l].yielded);
+        let following = s.diverged.is_none() && step < s.follow_len;
+        let idx = if s.diverged.is_none() && (following || s.follow_len == usize::MAX) {
+            let mut ch = s.chooser.take().expect("chooser");
+            let r = ch.pick(step, &choices, last, yielded);
+            s.chooser = Some(ch);
+            match r {
+                Ok(i) => Some(i),
+                Err(why) => {
+                    s.diverged = Some((step, why));
+                    default_pick(&choices, last, yielded)
+                }
+            }
+        } else {
+            default_pick(&choices, last, yielded)
+        };
+        let Some(idx) = idx else {
+            s.run_over = true;
+            c.signal(0);
+            return None;
+        };
+        let ch = choices[idx].clone();
+        s.step = if following { step as i64 } else { -1 };
+        if !ch.is_env() {
+            s.last = Some(ch.thread());
+        }
+        s.sched.push(ch.clone());
+        s.stepno += 1;
+        match &ch {
+            Choice::Grant(t) | Choice::GrantFail(t) | Choice::GrantWake(t, _) => {
+                let t = *t;
+                let mut g = Grant { fail_weak: matches!(ch, Choice::GrantFail(_)), wake: vec![], auto: false };
+                if let Choice::GrantWake(_, w) = &ch {
+                    g.wake.clone_from(w);
+                } else if matches!(s.th[t].state, TState::Announced(Pending::Wake { .. })) {
+                    g.auto = true;
+                }
+                s.th[t].yielded = false;
+                s.th[t].state = TState::Running;
+                if t == me {
+                    return Some(g);
+                }
+                s.th[t].grant = Some(g);
+                c.signal(t);
+                return None;
+            }
+            Choice::Spurious(t) | Choice::Eintr(t) => {
+                let t = *t;
+                let eintr = matches!(ch, Choice::Eintr(_));
+                if let TState::Parked(addr) = s.th[t].state {
+                    let li = s.loc_index(addr);
+                    s.queues[li].retain(|x| *x != t);
+                    if eintr {
+                        s.th[t].eintr_used += 1;
+                    } else {
+                        s.th[t].spur_used += 1;
+                    }
+                    s.th[t].state = TState::Woken;
+                    let tail = format!("{}{}", s.step_tag(), s.snapshot());
+                    s.log.push(format!(
+                        "{{\"ev\":\"woken\",\"t\":{t},\"cause\":\"{}\"{tail}}}",
+                        if eintr { "eintr" } else { "spurious" }
+                    ));
+                    s.to_release.push((t, if eintr { -EINTR } else { 0 }));
+                }
+            }
+        }
     }
 }
 
@@ -847,8 +920,8 @@ fn default_pick(choices: &[Choice], last: Option<usize>, yielded: bool) -> Optio
 struct Follow {
     sched: Vec<Choice>,
 }
-impl Chooser for Follow {
-    fn pick(&mut self, step: usize, choices: &[Choice], _last: Option<usize>, _yielded: bool) -> Result<usize, String> {
+impl Follow {
+    fn pick(&mut self, step: usize, choices: &[Choice]) -> Result<usize, String> {
         let want = &self.sched[step];
         if let Some(i) = choices.iter().position(|c| c == want) {
             return Ok(i);
@@ -869,12 +942,9 @@ impl Chooser for Follow {
         }
         Err(format!("step {} wants {} but enabled are [{}]", step, want.json(), choices.iter().map(Choice::json).collect::<Vec<_>>().join(",")))
     }
-    fn following(&self, step: usize) -> bool {
-        step < self.sched.len()
-    }
 }
 
-fn run_once(spec: &RunSpec, chooser: &mut dyn Chooser, follow_len: usize) -> RunResult {
+fn run_once(spec: &RunSpec, chooser: Chooser, follow_len: usize) -> (RunResult, Chooser) {
     let n = spec.progs.len();
     let lock = Arc::new(if spec.rw { LockObj::R(RwLock::new(0)) } else { LockObj::M(Mutex::new(0)) });
     let base = match &*lock {
@@ -896,9 +966,9 @@ fn run_once(spec: &RunSpec, chooser: &mut dyn Chooser, follow_len: usize) -> Run
                 weak_used: 0,
                 panicked: false,
                 yielded: false,
+                spins: 0,
             })
             .collect();
-        s.th[0].state = TState::Finished;
         s.log = Vec::new();
         s.abort = false;
         s.range = (base.0, base.0 + base.1);
@@ -908,6 +978,21 @@ fn run_once(spec: &RunSpec, chooser: &mut dyn Chooser, follow_len: usize) -> Run
         s.rw = spec.rw;
         s.step = -1;
         s.snapshots = spec.snapshots;
+        s.chooser = Some(chooser);
+        s.budgets = spec.budgets.clone();
+        s.max_steps = spec.max_steps;
+        s.follow_len = follow_len;
+        s.sched = Vec::new();
+        s.last = None;
+        s.stepno = 0;
+        s.diverged = None;
+        s.cut = false;
+        s.started = 0;
+        s.nthreads = n;
+        s.run_over = false;
+    }
+    for f in &ctl().flags {
+        f.store(0, Ordering::SeqCst);
     }
     let mut handles = Vec::new();
     for t in 1..=n {
@@ -918,44 +1003,11 @@ fn run_once(spec: &RunSpec, chooser: &mut dyn Chooser, follow_len: usize) -> Run
         handles.push(std::thread::spawn(move || worker(t, l, p)));
         drop(wait_started(lock_shared(), t));
     }
-    let mut sched = Vec::new();
-    let mut last: Option<usize> = None;
-    let mut diverged = None;
-    let mut cut = false;
-    let mut s = wait_quiescent(lock_shared());
-    let mut step = 0usize;
-    loop {
-        let choices = enabled(&s, &spec.budgets);
-        if !choices.iter().any(|c| !c.is_env()) {
-            break;
-        }
-        if step >= spec.max_steps {
-            cut = true;
-            break;
-        }
-        let following = diverged.is_none() && step < follow_len;
-        let yielded = last.is_some_and(|l| s.th[l].yielded);
-        let idx = if diverged.is_none() && (following || follow_len == usize::MAX) {
-            match chooser.pick(step, &choices, last, yielded) {
-                Ok(i) => Some(i),
-                Err(why) => {
-                    diverged = Some((step, why));
-                    default_pick(&choices, last, yielded)
-                }
-            }
-        } else {
-            default_pick(&choices, last, yielded)
-        };
-        let Some(idx) = idx else { break };
-        let ch = choices[idx].clone();
-        s.step = if following { step as i64 } else { -1 };
-        s = perform(s, &ch);
-        s.step = -1;
-        if !ch.is_env() {
-            last = Some(ch.thread());
-        }
-        sched.push(ch);
-        step += 1;
+    let mut s = lock_shared();
+    s.started = n;
+    let _ = drive(&mut s, 0);
+    while !s.run_over {
+        s = ctl().wait(0, s);
     }
     let blocked: Vec<usize> = (1..=n).filter(|t| matches!(s.th[*t].state, TState::Parked(_))).collect();
     // tear down: everything still alive unwinds out of its yield point
@@ -967,7 +1019,9 @@ fn run_once(spec: &RunSpec, chooser: &mut dyn Chooser, follow_len: usize) -> Run
     }
     let mut s = lock_shared();
     let log = std::mem::take(&mut s.log);
-    RunResult { sched, blocked, cut, diverged, log }
+    let r = RunResult { sched: std::mem::take(&mut s.sched), blocked, cut: s.cut, diverged: s.diverged.take(), log };
+    let ch = s.chooser.take().expect("chooser");
+    (r, ch)
 }
 
 fn emit_run(out: &mut impl Write, run: usize, spec: &RunSpec, plan: &str, mode: &str, r: &RunResult) {
@@ -1037,8 +1091,7 @@ fn mode_replay(path: &str) {
         spec.snapshots = v.get("snap").and_then(Value::as_bool).unwrap_or(true);
         let sched: Vec<Choice> = v["sched"].as_array().map(|a| a.iter().filter_map(Choice::from_json).collect()).unwrap_or_default();
         let n = sched.len();
-        let mut ch = Follow { sched };
-        let r = run_once(&spec, &mut ch, n);
+        let (r, _) = run_once(&spec, Chooser::Follow(Follow { sched }), n);
         let run = v.get("run").and_then(Value::as_u64).map_or(k, |x| x as usize);
         emit_run(&mut out, run, &spec, &v["sched"].to_string(), "replay", &r);
     }
@@ -1083,7 +1136,7 @@ impl Dfs {
         v
     }
 }
-impl Chooser for Dfs {
+impl Dfs {
     fn pick(&mut self, step: usize, choices: &[Choice], last: Option<usize>, yielded: bool) -> Result<usize, String> {
         let allowed = self.allowed(choices, last, yielded);
         if allowed.is_empty() {
@@ -1120,7 +1173,9 @@ fn mode_explore(path: &str) {
     loop {
         dfs.preempts = 0;
         dfs.depth_seen = 0;
-        let r = run_once(&spec, &mut dfs, usize::MAX);
+        let (r, ch) = run_once(&spec, Chooser::Dfs(dfs), usize::MAX);
+        let Chooser::Dfs(d) = ch else { unreachable!() };
+        dfs = d;
         emit_run(&mut out, run, &spec, "null", "dfs", &r);
         run += 1;
         // backtrack
@@ -1149,8 +1204,8 @@ struct Random {
     rng: Rng,
     env_pct: u64,
 }
-impl Chooser for Random {
-    fn pick(&mut self, _step: usize, choices: &[Choice], last: Option<usize>, _yielded: bool) -> Result<usize, String> {
+impl Random {
+    fn pick(&mut self, choices: &[Choice], last: Option<usize>) -> Result<usize, String> {
         let envs: Vec<usize> = (0..choices.len()).filter(|i| choices[*i].is_env() || matches!(choices[*i], Choice::GrantFail(_))).collect();
         let norm: Vec<usize> = (0..choices.len()).filter(|i| !envs.contains(i)).collect();
         if !envs.is_empty() && (norm.is_empty() || self.rng.below(100) < self.env_pct) {
@@ -1181,8 +1236,8 @@ fn mode_random(path: &str) {
         if t0.elapsed().as_secs_f64() > max_secs {
             break;
         }
-        let mut ch = Random { rng: Rng::new(seed.wrapping_mul(1_000_003).wrapping_add(run as u64)), env_pct: 8 };
-        let r = run_once(&spec, &mut ch, usize::MAX);
+        let ch = Random { rng: Rng::new(seed.wrapping_mul(1_000_003).wrapping_add(run as u64)), env_pct: 8 };
+        let (r, _) = run_once(&spec, Chooser::Random(ch), usize::MAX);
         emit_run(&mut out, run, &spec, "null", "random", &r);
     }
     out.flush().unwrap();
@@ -1207,6 +1262,18 @@ fn main() {
             rw: false,
             step: -1,
             snapshots: false,
+            chooser: None,
+            budgets: Budgets { spur: 0, eintr: 0, weak: 0 },
+            max_steps: 0,
+            follow_len: 0,
+            sched: Vec::new(),
+            last: None,
+            stepno: 0,
+            diverged: None,
+            cut: false,
+            started: 0,
+            nthreads: 0,
+            run_over: true,
         }),
         flags: std::array::from_fn(|_| CoreAtomicU32::new(0)),
     });
